@@ -10,11 +10,13 @@ import (
 	"path/filepath"
 	"runtime"
 	"sort"
+	"strings"
 	"sync"
 	"sync/atomic"
 	"testing"
 	"time"
 
+	"github.com/robustirc/robustirc/internal/api"
 	"github.com/robustirc/robustirc/internal/verifrep"
 )
 
@@ -138,9 +140,23 @@ func TestVerifC20(t *testing.T) {
 	// again, the watchdog below dumps the goroutines and the run is inconclusive.
 	withGline := true
 	pages := []string{"/status", "/status/getmessage", "/status/sessions", "/status/irclog", "/status/state", "/config", "/metrics", "/leader", "/irclog?sessionid=" + sessions[0].Id}
+	// the two pages that read the node's log copy stop shortly before a Restore: a handler that
+	// reads the store Restore closes panics and takes the node down (outside every property,
+	// DESIGN 8.2), and with it the moments after the replacement that this workload is after
+	storeCtx := ctx
+	if seed%2 == 0 {
+		var storeCancel context.CancelFunc
+		storeCtx, storeCancel = context.WithTimeout(ctx, duration-700*time.Millisecond)
+		defer storeCancel()
+	}
 	for pi, page := range pages {
 		page := page
+		readsStore := strings.Contains(page, "irclog")
 		run(fmt.Sprintf("page-%d", pi), func(rng *rand.Rand) {
+			if readsStore && storeCtx.Err() != nil {
+				time.Sleep(5 * time.Millisecond)
+				return
+			}
 			ov.do("page:"+page[:min(len(page), 18)], func() { c.private("GET", page, n.password, nil, nil) })
 			time.Sleep(time.Duration(rng.Intn(3)) * time.Millisecond)
 		})
@@ -284,7 +300,26 @@ func TestVerifC20(t *testing.T) {
 			report()
 			rep.Obs("restore-started", 1)
 			rep.Checkpoint()
+			// requests in flight straddle the replacement of the state (see api.VerifStall); a few
+			// more writers of the configuration route are started for these moments
+			for k := 0; k < 6; k++ {
+				wg.Add(1)
+				go func() {
+					defer wg.Done()
+					for ctx.Err() == nil {
+						// with a stale revision: refused after the revision check, so these writers
+						// never queue up behind the restore inside raft
+						ov.do("config-post-stale", func() { c.postConfig(n.password, cfg, "0") })
+					}
+				}()
+			}
+			time.Sleep(20 * time.Millisecond)
+			atomic.StoreInt32(&api.VerifStall, 1)
 			ov.do("restore", func() { n.raft.Restore(meta, rc, 10*time.Second) })
+			atomic.StoreInt32(&api.VerifStall, 0)
+			calls, stalled := api.VerifYields()
+			rep.Obs("accessor-yield-points-passed", int(calls))
+			rep.Obs("accessor-calls-stalled-during-restore", int(stalled))
 			rc.Close()
 			rep.Obs("restore-survived", 1)
 		}()
